@@ -57,7 +57,7 @@ func run(e *harness.Env) {
 		"(B, thorough) every sequence of 4 blocks over the structural sub-alphabet (letters whose effect can cross block boundaries: plain / empty / named-style paragraphs, direct formatting on a styled paragraph, headings, list items, tables, block-level content control) " +
 		"and every sequence of 4 blocks with at most 2 letters other than the plain paragraph over the full alphabet; " +
 		"(C) for every other combination of optional parts (styles / numbering / header / footer absent) and for ExcludeHeadersAndFooters (with and without header / footer parts): every sequence of <= 2 blocks over the full alphabet (thorough: also 3 blocks over the structural sub-alphabet). " +
-		"(D) numbering layout: every sequence of 1..3 (thorough 1..4) letters of the list sub-alphabet additionally with every other layout of word/numbering.xml (1..3 w:abstractNum definitions of differing numFmt / start, declaration order reversed / rotated / minimal, sparse ids, w:num -> w:abstractNum not the identity, a w:num with lvlOverride/startOverride) resp. of the ODT text:list-style definitions (order reversed / rotated / minimal, common vs automatic styles). " +
+		"(D) numbering layout: every sequence of 1..3 (thorough 1..4) letters of the list sub-alphabet additionally with every other layout of word/numbering.xml (1..3 w:abstractNum definitions of differing numFmt / start, declaration order reversed / rotated / minimal, sparse ids, w:num -> w:abstractNum not the identity, a w:num with lvlOverride/startOverride) resp. of the ODT text:list-style definitions (order reversed / rotated / minimal, common vs automatic styles, and style scope: styles.xml automatic styles whose names collide with content.xml automatic styles of a different definition). " +
 		"(D2) ODT column declarations: every sequence of 1..2 (thorough 1..3) letters of the table sub-alphabet with each spelling of the table:table-column declarations (one repeated declaration, one per column, repeated+single, single+repeated, repeated+repeated); " +
 		"(E) one-reader space (ODT: with each column-declaration spelling): every sequence of 1..2 (thorough 1..3) letters of a table / list sub-alphabet: the merge spans reported by a fresh reader's Tables() and ModelTables() against the authored grid, and for every ordered pair (first, second) of the reader views Text, Markdown, Document, Tables, ModelTables, Lists called on ONE opened docx/odt Reader: the second result equals the same view of a fresh reader. " +
 		"Each document of (A)-(D) is read through Text(), ToMarkdown(), Document() and, when it has list items, docx/odt Reader.Lists(); one evaluation = one (document, view, expected block) triple, plus one per (document, view) for the header/footer clause. " +
@@ -259,7 +259,7 @@ var docxListLetters = map[string]bool{"p1": true, "l0": true, "l1": true, "l2": 
 
 var odtListLetters = map[string]bool{"p1": true, "lb0": true, "lb012": true, "ln01": true, "lc0": true, "lb11": true, "lsp": true}
 
-var odtListLayouts = []string{"id", "rev", "rot", "min", "auto"}
+var odtListLayouts = []string{"id", "rev", "rot", "min", "auto", "scope"}
 
 var docxStructural = map[string]bool{"pst": true, "host": true, "plp": true, "lbt": true, "p1": true, "empty": true, "h1": true, "hc": true, "ho": true, "l0": true, "l1": true, "l2": true, "n0": true, "n1": true, "c0": true,
 	"t11": true, "t22": true, "tvm": true, "tnest": true, "bsdt": true}
